@@ -79,6 +79,9 @@ impl World {
         let doc = RawDoc::new(project, actors[..ndelegates].iter().map(did).collect(), threshold, Visibility::Public)
             .verified()
             .expect("doc");
+        // pin the commit time of the root change (and of the signed refs), so that object ids -- and
+        // with them every id-ordered tie-break in the evaluator -- are a function of the case seed
+        std::env::set_var("GIT_COMMITTER_DATE", "1600000000");
         let (repo, id_head) = Repository::init(&doc, &storage, &actors[0]).expect("init");
         repo.sign_refs(&actors[0]).expect("sign_refs");
         repo.set_identity_head().expect("identity head");
